@@ -214,16 +214,47 @@ def evaluate(case):
         w.close()
 
 
+TWO_PASS = "\nfor i in range({n}):\n    if i % 3 == 2:\n        print(i ** i)\n        print(i ** 3)\n        print(i ** 4)\n"
+
+
+@st.composite
+def directed_trees(draw):
+    """One file per folder; exactly one of them needs a second pass, and a file that sorts before it finishes late:
+    the per-file change flags matter (which folder gets another pass) and completion order differs from file order."""
+    folders = ["pkg_a", "pkg_b", "pkg_c"][: draw(st.integers(2, 3))]
+    kinds = draw(st.permutations(["two_pass", "unchanged", "one_pass"][: len(folders)]))
+    tree = {}
+    for folder, kind in zip(folders, kinds):
+        if kind == "two_pass":
+            text = TWO_PASS.replace("{n}", str(draw(st.integers(5, 60))))
+        elif kind == "unchanged":
+            text = f"print({draw(st.integers(0, 9))})\n"
+        else:
+            text = "x = 1\nprint(x)\n\n\n\n"
+        tree[f"{folder}/mod.py"] = text
+    n = len(tree)
+    schedules = []
+    for _ in range(2):
+        slow = draw(st.integers(0, n - 1))
+        delays = [draw(st.integers(250, 450)) if i == slow else 0 for i in range(n)]
+        schedules.append({"n_cores": draw(st.sampled_from([2, 3, 4])), "order": list(draw(st.permutations(list(range(n))))), "delays": delays})
+    return {"part": "B", "tree": tree, "max_passes": draw(st.sampled_from([2, 3, 5])), "safe": draw(st.booleans()), "schedules": schedules, "directed": True}
+
+
 @st.composite
 def trees(draw):
+    if draw(st.integers(0, 2)) == 0:
+        return draw(directed_trees())
     nfolders = draw(st.integers(1, 3))
     tree = {}
     for fi in range(nfolders):
         folder = ["pkg_a", "pkg_b/sub", "scripts"][fi]
         for k in range(draw(st.integers(1, 4))):
-            kind = draw(st.sampled_from(["family", "family", "family", "unchanged", "invalid", "init"]))
+            kind = draw(st.sampled_from(["family", "family", "family", "unchanged", "invalid", "init", "two_pass"]))
             if kind == "family":
                 text = draw(families.family_program())[1]
+            elif kind == "two_pass":
+                text = TWO_PASS.replace("{n}", str(draw(st.integers(5, 60))))
             elif kind == "unchanged":
                 text = "print(1)\n"
             elif kind == "invalid":
@@ -286,7 +317,7 @@ def run_shard(spec):
     def go_b(case):
         fails = eval_b(case)
         changed = case.pop("_changed_files", 0)
-        acc.case(case, changed >= 2, [f"B:max_passes={case['max_passes']}", f"B:files={len(case['tree'])}"],
+        acc.case(case, changed >= 2, [f"B:max_passes={case['max_passes']}", f"B:files={len(case['tree'])}"] + (["B:directed-slow-file-and-two-pass-file"] if case.get("directed") else []),
                  sample={"files": sorted(case["tree"]), "max_passes": case["max_passes"], "schedules": case["schedules"]})
         acc.fails(fails)
 
